@@ -299,6 +299,23 @@ def _check(args):
     if i % 3 == 0:
         # rarely used but accepted features (a separate stream: the base forms of the other cases stay as they were)
         forms.add_exotics(rng_for(seed, PID, "exotic", i), form, ["osm", "search", "legacy_hint", "choice_parent", "empty_group", "calc_msgs", "audit"], p=0.4)
+    if i % 5 == 1:
+        # a language (or custom attribute) that bears the name of an internal field of the element dump: parent, bind, control, children, type
+        rl = rng_for(seed, PID, "lang-name", i)
+        langs_, delim_ = forms.form_langs(form)
+        if langs_:
+            old_l, new_l = rl.choice(langs_), rl.choice(["parent", "bind", "control", "children", "type", "name", "label", "media"])
+            if new_l not in langs_:
+                for rows_ in form.values():
+                    for row_ in rows_:
+                        for k_ in [k_ for k_ in row_ if k_.endswith(delim_ + old_l)]:
+                            row_[k_[: -len(old_l)] + new_l] = row_.pop(k_)
+                srow_ = (form.get("settings") or [{}])[0]
+                if srow_.get("default_language") == old_l:
+                    srow_["default_language"] = new_l
+        for row_ in form["survey"]:
+            if row_.get("name") and not row_.get("type", "").startswith(("begin", "end")) and rl.random() < 0.3:
+                row_[rl.choice(["instance::control", "instance::bind", "instance::parent", "bind::parent"])] = "v"
     desc = {"form": form, "case": i}
     try:
         direct = convert(copy.deepcopy(forms.as_dict(form)), form_name="data")
